@@ -18,6 +18,18 @@
                                 along every edge of the two maps — what the label-level notion of matched pair
                                 does not see) and for the code before that fix (pw = false; historic, no case
                                 of the harness runs it);
+   * C13_eqpath_edges_checked, C13_ewalk_sound   the content of fix 8a96a0c: when EqPathParallelSpecFinder.find() as it
+                                is (pw = true) returns two label maps, EVERY (parent pair -> child pair) edge of the
+                                two maps reachable from the pair of roots passed the final walk: _eq_path_matches was
+                                asked about it (fresh cache, final maps) and answered True, and the two rules are a
+                                recorded matching; C13_matched_pair_eqpath_with_paths: under the contract of those
+                                answers the returned pair is matched INCLUDING the non-equivalence rules inside the
+                                equivalence labels (what matched_pair alone cannot see; not true of pw = false);
+   * C13_eqpath_finder_total_tight, C13_harness_never_out_of_fuel   termination of the EqPath variant with a walk bound
+                                LINEAR in the number of label pairs, and: the fuel run_c13 computes from the two
+                                universes (Parallel/Fuel.v) meets the bounds, so status 2 ("out of fuel") cannot occur
+                                on any compared run (EqPath: for oracles answering every question), tree
+                                construction included;
    * C13_first_search_sound     every entry the first search records in matching_info is a pair of
                                 candidate rules (same number of children, matching constructor classes)
                                 with a genuine permutation of the child positions, or the atom entry of two
@@ -48,13 +60,17 @@
 
    Not proved: completeness of the second search ("finds a pair whenever one exists" is not part of the
    property).  Outside the model: the expansion of the searchers, EquivalenceRuleExtractor,
-   CombinatorialSpecification and Isomorphism (the open finding about chained equivalence steps lies there). *)
+   CombinatorialSpecification and Isomorphism (the open finding about chained equivalence steps lies there).
+   The BASE variant documents a precondition (class docstring: classes sharing an equivalence label are equivalent);
+   on universes with a unary non-equivalence rule inside an equivalence class C13_matched_pair still holds (it is
+   label-level) but the two SPECIFICATIONS need not be isomorphic: outside the property for that variant
+   (findings/triage2/C13/verdict.md; the harness tags and judges those pairs apart). *)
 From Coq Require Import ZArith List Bool.
 From CSS Require Import Base.Sx Spec.Extractor Spec.ExtractorProofs
   Parallel.Model Parallel.Basics Parallel.First Parallel.Second Parallel.Matched Parallel.Fixed
   Parallel.Refuted Parallel.SpecStage Parallel.Memo Parallel.Term Parallel.Term2 Parallel.Term3
-  Parallel.EndToEnd Parallel.EqSecond Parallel.EqTerm Parallel.InfoModel Parallel.InfoProofs Parallel.Final
-  Parallel.Examples Parallel.Run.
+  Parallel.EndToEnd Parallel.EqSecond Parallel.EqTerm Parallel.EqSound Parallel.Fuel Parallel.InfoModel
+  Parallel.InfoProofs Parallel.Final Parallel.Examples Parallel.Run.
 Import ListNotations.
 
 (* ---------------------------------------------------------------- the output is a matched pair *)
@@ -155,6 +171,70 @@ Theorem C13_two_rule_sets_eqpath : forall db1 lis1 db2 lis2 s1 s2 pw fuel wfuel 
   rule_set_ok (db_rep db2) fpath2 (db_keys db2) keys2 (db_start db2) order2.
 Proof. exact two_rule_sets_eqpath. Qed.
 
+(* ---------------------------------------------------------------- the content of fix 8a96a0c (EqPath, pw = true) *)
+(* When EqPathParallelSpecFinder.find() as it is returns two label maps, every (parent pair -> child pair)
+   edge of the two maps reachable from the pair of roots along the recorded child orders
+   (edge_reach: the root edge ((root1,root2), none); below an edge whose pair (a,b) carries the rules
+   (c1,c2) <> ((),()), the edges (p, (a,b)) for p in zip((c1[i] for i in order), c2), order being the recorded
+   matching of (c1,c2) under (a,b)) PASSED the final walk (edge_passed): both labels have their rule; either
+   both are the atom entry, or _eq_path_matches answered True for the key ((a,b), parent pair, (c1,c2)) in the
+   final walk (woracle: fresh cache, final maps) and (c1,c2) is a recorded matching of (a,b) with a usable
+   child order.  m = the matching_info of the first search (mi_sound).
+   For pw = false (before the fix) no such statement holds — C13_matched_pair_eqpath is all there is. *)
+Theorem C13_eqpath_edges_checked : forall s1 s2 fuel wfuel oracle woracle d1 d2 asked,
+  find_eq s1 s2 true fuel wfuel oracle woracle = EOut (Found d1 d2) asked ->
+  exists st, find s1 s2 fuel (s_root s1) (s_root s2) init_fstate = Ok (true, st) /\
+    mi_sound s1 s2 (f_mi st) /\
+    forall e, edge_reach (f_mi st) d1 d2 (s_root s1, s_root s2) e -> edge_passed (f_mi st) d1 d2 woracle e.
+Proof. exact find_eq_edges_checked. Qed.
+
+(* the walk itself (any matching_info, any maps, any oracle table): ewalk_sound in the form used above *)
+Theorem C13_ewalk_sound : forall m d1 d2 wo fuel r st',
+  ewalk m fuel [(r, (0%nat, 0%nat))] [] (mkE d1 d2 [] wo [] []) = Ok (true, st') ->
+  forall e, edge_reach m d1 d2 r e -> edge_passed m d1 d2 wo e.
+Proof. exact ewalk_edges_checked. Qed.
+
+(* What it adds to C13_matched_pair_eqpath.  Under the CONTRACT of the oracle (oracle_contract: an answer
+   True for the key ((id1,id2), (pid1,pid2), (children1,children2)) means that the non-equivalence rules
+   met inside the two equivalence classes on the way from the parents to the rules (children1, children2)
+   match pairwise — paths_match, abstract: EquivalenceRuleExtractor is outside the model), what find()
+   returns is a matched pair AND the equivalence paths match along every edge of the common unfolding of the
+   two maps: the two specifications are isomorphic INCLUDING the rules hidden inside their equivalence
+   labels, which the label-level notion matched_pair cannot see. *)
+Theorem C13_matched_pair_eqpath_with_paths : forall (paths_match : qkey -> Prop)
+    s1 s2 fuel wfuel oracle woracle d1 d2 asked,
+  oracle_contract paths_match woracle ->
+  find_eq s1 s2 true fuel wfuel oracle woracle = EOut (Found d1 d2) asked ->
+  matched_pair s1 s2 d1 d2 /\
+  exists m, mi_sound s1 s2 m /\
+    forall a b rel, edge_reach m d1 d2 (s_root s1, s_root s2) ((a, b), rel) ->
+      exists c1 c2, sm_get d1 a = Some c1 /\ sm_get d2 b = Some c2 /\
+        ((c1 = [] /\ c2 = []) \/ paths_match ((a, b), rel, (c1, c2))).
+Proof. exact find_eq_matched_with_paths. Qed.
+
+(* ---------------------------------------------------------------- the fuel of the compared runs *)
+(* totality of the EqPath variant with a walk bound LINEAR in the number of pairs (the bound of
+   C13_eqpath_finder_total is quadratic: all_edges) *)
+Theorem C13_eqpath_finder_total_tight : forall s1 s2 pw fuel wfuel oracle woracle,
+  (forall k, oracle k <> None) -> (forall k, woracle k <> None) ->
+  (2 * length (all_pairs s1 s2) < fuel)%nat ->
+  (length (all_pairs s1 s2) * S (max_arity s2) + 1 < wfuel)%nat ->
+  (S (length (all_pairs s1 s2) * max_arity s2) * S (max_arity s2) + 1 < wfuel)%nat ->
+  exists asked, find_eq s1 s2 pw fuel wfuel oracle woracle = EOut Nothing asked \/
+                exists d1 d2, find_eq s1 s2 pw fuel wfuel oracle woracle = EOut (Found d1 d2) asked.
+Proof. exact find_eq_total_tight. Qed.
+
+(* run_c13 (Parallel/Run.v) calls find_base / find_eq with fuel = harness_fuel sent s1 s2 =
+   max(sent, run_fuel s1 s2) and wfuel = run_wfuel s1 s2, computed from the two universes, and tree_keys with
+   S (size_of d): none of them can answer "out of fuel" (status 2), whatever the harness sends.  EqPath: for
+   oracles that answer every question (a question without a replayed answer is Failed E_ORACLE = status 19). *)
+Theorem C13_harness_never_out_of_fuel : forall s1 s2 sent,
+  find_base s1 s2 (harness_fuel sent s1 s2) (run_wfuel s1 s2) <> NoFuel /\
+  (forall pw oracle woracle asked, (forall k, oracle k <> None) -> (forall k, woracle k <> None) ->
+     find_eq s1 s2 pw (harness_fuel sent s1 s2) (run_wfuel s1 s2) oracle woracle <> EOut NoFuel asked) /\
+  (forall d root, tree_keys d root (S (size_of d)) <> None).
+Proof. exact harness_never_out_of_fuel. Qed.
+
 (* ---------------------------------------------------------------- HISTORY: the code before 97589e3 *)
 Theorem C13_matched_pair_refuted :
   exists s1 s2 fuel d1 d2, find_base_old s1 s2 fuel = Found d1 d2 /\ ~ matched_pair s1 s2 d1 d2.
@@ -237,6 +317,40 @@ Example C13_eqpath_finder_total_applied :
                 exists d1 d2, find_eq ex1 ex2 true 201%nat ex_wfuel all_true all_true = EOut (Found d1 d2) asked.
 Proof.
   apply C13_eqpath_finder_total; try (intros k; discriminate); apply Nat.ltb_lt; vm_compute; reflexivity.
+Qed.
+
+Definition ex_first : bool * fstate :=
+  match find ex1 ex2 201%nat 2%nat 5%nat init_fstate with Ok r => r | _ => (false, init_fstate) end.
+Definition ex_asked : list qkey :=
+  match find_eq ex1 ex2 true 201%nat ex_wfuel all_true all_true with EOut _ a => a end.
+
+Example C13_eqpath_edges_checked_applied :
+  exists st, find ex1 ex2 201%nat 2%nat 5%nat init_fstate = Ok (true, st) /\
+    mi_sound ex1 ex2 (f_mi st) /\
+    forall e, edge_reach (f_mi st) exd1 exd2 (2, 5)%nat e -> edge_passed (f_mi st) exd1 exd2 all_true e.
+Proof.
+  apply (C13_eqpath_edges_checked ex1 ex2 201%nat ex_wfuel all_true all_true exd1 exd2 ex_asked).
+  vm_compute. reflexivity.
+Qed.
+
+(* the hypothesis edge_reach is inhabited beyond the root: the edge into the pair (1,6) below the roots *)
+Example C13_edge_reach_example :
+  edge_reach (f_mi (snd ex_first)) exd1 exd2 (2, 5)%nat ((1, 6), (3, 6))%nat.
+Proof.
+  eapply er_step; [apply er_root|].
+  exists [0; 1]%nat, [6; 7]%nat. vm_compute. eexists _, _, _.
+  repeat split; try reflexivity; try discriminate. left. reflexivity.
+Qed.
+
+Example C13_harness_never_out_of_fuel_applied :
+  find_base ex1 ex2 (harness_fuel 0 ex1 ex2) (run_wfuel ex1 ex2) = Found exd1 exd2.
+Proof. vm_compute. reflexivity. Qed.
+
+Example C13_eqpath_finder_total_tight_applied :
+  exists asked, find_eq ex1 ex2 true (run_fuel ex1 ex2) (run_wfuel ex1 ex2) all_true all_true = EOut Nothing asked \/
+                exists d1 d2, find_eq ex1 ex2 true (run_fuel ex1 ex2) (run_wfuel ex1 ex2) all_true all_true = EOut (Found d1 d2) asked.
+Proof.
+  apply C13_eqpath_finder_total_tight; try (intros k; discriminate); apply Nat.ltb_lt; vm_compute; reflexivity.
 Qed.
 
 Example C13_first_search_sound_applied :
@@ -401,5 +515,10 @@ Print Assumptions C13_universe_well_formed.
 Print Assumptions C13_spec_from_label_map.
 Print Assumptions C13_two_rule_sets.
 Print Assumptions C13_two_rule_sets_eqpath.
+Print Assumptions C13_eqpath_edges_checked.
+Print Assumptions C13_ewalk_sound.
+Print Assumptions C13_matched_pair_eqpath_with_paths.
+Print Assumptions C13_eqpath_finder_total_tight.
+Print Assumptions C13_harness_never_out_of_fuel.
 Print Assumptions C13_matched_pair_refuted.
 Print Assumptions C13_eqpath_raises_refuted.
